@@ -1,16 +1,19 @@
 /* units/lru.c - proof units for src/util/cache.c (sharded LRU cache: block cache and table cache)
  *
- *   lru.equal .. lru.tbl_resize   hash table level (lru_handle_equal, lru_table_*)
- *   lru.lookup .. lru.prune       shard level (lists, refs, usage, eviction)
- *   lru.shard_index .. lru.top    sharding and dispatch
+ *   lru.equal .. lru.tbl_resize*    hash table level (lru_handle_equal, lru_table_*): symbolic hashes and keys
+ *   lru.lookup .. lru.erase         shard level, one operation on a symbolic heap shape (lists, refs, usage)
+ *   lru.insert_s*, lru.prune_s      shard level, the looping operations on concrete heap shapes with symbolic numbers
+ *   lru.insert_nocache              allocation size / key copy with keys of 0..8 bytes
+ *   lru.shard_index .. lru.create   sharding, dispatch, ids, creation
  *
  * The real cache.c is included unmodified.  Models: ldb_malloc (malloc, never
  * NULL), ldb_free (free + ghost record), ldb_mutex_* (ghost "held" pointer),
- * ldb_hash (uninterpreted: one arbitrary value per distinct key of the
- * harness), the entry deleter (ghost recorder).
+ * ldb_hash (uninterpreted), the entry deleter (ghost recorder).
  *
  * A cache state is built by the harness from N <= LRU_N handles with symbolic
  * hash, key length, key bytes, charge, refs; the bound is stated per unit.
+ * All units are plain harnesses (CHECKs) except the loop-free pure ones
+ * (lru.equal, lru.shard_index, lru.hash, lru.id: enforced contracts).
  */
 #include "verif.h"
 
@@ -50,7 +53,7 @@ struct lru_ghost {
   int mallocs; void *last_malloc; size_t last_malloc_n; void *mal[3];
   int frees; void *freed[LRU_M + 2];
   int dels; void *del_value[LRU_M + 2]; size_t del_klen[LRU_M + 2]; uint8_t del_key[LRU_M + 2][LRU_K + 1];
-  int del_after_free;              /* deleter ran on an already freed handle's key     */
+  unsigned clock, free_t[LRU_M + 2], del_t[LRU_M + 2];   /* order of deleter calls and frees */
   int hashes; const uint8_t *hash_data; size_t hash_size; uint32_t hash_seed, hash_ret;
 } X;
 
@@ -58,7 +61,7 @@ static void ghost_reset(void) {
   int i;
   X.held = NULL; X.last = NULL; X.locks = 0; X.unlocks = 0; X.lock_err = 0; X.guard = 0; X.guard_err = 0;
   X.mal[0] = X.mal[1] = X.mal[2] = NULL; X.next_is_handle = 0; X.handle_n = 0; X.statics = 0;
-  X.mallocs = 0; X.last_malloc = NULL; X.last_malloc_n = 0; X.frees = 0; X.dels = 0; X.del_after_free = 0;
+  X.mallocs = 0; X.last_malloc = NULL; X.last_malloc_n = 0; X.frees = 0; X.dels = 0; X.clock = 0;
   X.hashes = 0; X.hash_data = NULL; X.hash_size = 0; X.hash_seed = 0;
   for (i = 0; i < LRU_M + 2; i++) { X.freed[i] = NULL; X.del_value[i] = NULL; X.del_klen[i] = 0; }
 }
@@ -80,6 +83,7 @@ void ldb_free(void *p) {
   if (p != NULL) {
     __CPROVER_assert(X.frees < LRU_M + 2, "ldb_free: more frees than objects the harness handed out");
     __CPROVER_assume(X.frees < LRU_M + 2);
+    X.free_t[X.frees] = ++X.clock;
     X.freed[X.frees++] = p;
     if (!X.statics) free(p);
   }
@@ -90,7 +94,7 @@ static void model_deleter(const ldb_slice_t *key, void *value) {
   if (X.guard && X.held == NULL) X.guard_err = 1;
   __CPROVER_assert(X.dels < LRU_M + 2, "deleter: more calls than entries");
   __CPROVER_assume(X.dels < LRU_M + 2);
-  X.del_value[X.dels] = value; X.del_klen[X.dels] = key->size;
+  X.del_value[X.dels] = value; X.del_klen[X.dels] = key->size; X.del_t[X.dels] = ++X.clock;
   for (j = 0; j < LRU_K; j++) if (j < key->size) X.del_key[X.dels][j] = key->data[j];   /* reads the key: use after free is flagged */
   X.dels++;
 }
@@ -557,8 +561,10 @@ static int del_calls(int j, int *keyok) {
 }
 /* handle j went through unref-to-zero: deleter called exactly once with its key and value, then freed exactly once */
 static int destroyed(int j) {
-  int keyok, n = del_calls(j, &keyok);
-  return was_freed(G[j]) == 1 && n == 1 && keyok;
+  int keyok, n = del_calls(j, &keyok), c, f, order = 1; struct lru_snap s = S[j];
+  for (c = 0; c < LRU_M + 2; c++) for (f = 0; f < LRU_M + 2; f++)
+    if (c < X.dels && f < X.frees && X.del_value[c] == s.value && X.freed[f] == (void *)G[j] && X.del_t[c] > X.free_t[f]) order = 0;
+  return was_freed(G[j]) == 1 && n == 1 && keyok && order;      /* order: the deleter saw the entry before it was freed */
 }
 static int not_destroyed(int j) {
   int keyok, n = del_calls(j, &keyok);
@@ -1120,5 +1126,41 @@ void h_create(void) {
   CHECK(ok_tbl, "ldb_lru_create: every shard starts with an empty 4-bucket hash table");
   total = ldb_lru_usage(c);
   CHECK(total == 0 && X.locks == LDB_SHARDS && X.unlocks == LDB_SHARDS && X.held == NULL && !X.lock_err, "ldb_lru_usage: sums the shard usages, each read under its shard mutex");
+  CANARY();
+}
+
+/* ======================================================= lru.insert_nocache
+ * capacity 0 (caching off; concrete, so only that path is explored) on an empty cache, with a key of symbolic length
+ * 0..8 in exact-size heap objects and ldb_malloc = malloc(n): the handle must be big enough for header + key, the
+ * key is copied completely, nothing is read or written out of bounds. */
+void h_insert_nocache(void) {
+  ldb_slice_t key; lru_handle_t *e; size_t j; const uint8_t *kp; int i;
+  IN_SIZE(in_klen); IN_U32(in_hash); IN_SIZE(in_charge); IN_SIZE(in_b);
+  ASSUME(in_klen <= 8);
+  ghost_reset();
+  for (i = 0; i < LRU_M; i++) G[i] = NULL;
+  mk_table(&SH->table, 4);
+  SH->capacity = 0; SH->usage = 0;
+  SH->list.next = SH->list.prev = &SH->list;
+  SH->in_use.next = SH->in_use.prev = &SH->in_use;
+  X.guard = 1;
+  key.data = malloc(in_klen); key.size = in_klen; key.alloc = 0;
+  ASSUME(key.data != NULL);
+  for (j = 0; j < 8; j++) if (j < in_klen) key.data[j] = nondet_u8();
+
+  e = lru_shard_insert(SH, &key, in_hash, &g_val[0], in_charge, model_deleter);
+
+  CHECK(mutex_ok(), "lru_shard_insert: runs under the shard mutex, released on return");
+  CHECK(e != NULL && X.mallocs == 1 && e == (lru_handle_t *)X.mal[0] && X.frees == 0, "lru_shard_insert: returns the freshly allocated handle");
+  CHECK(X.last_malloc_n >= offsetof(lru_handle_t, key_data) + in_klen, "lru_shard_insert: the allocation has room for the handle header and the whole key");
+  CHECK(e->value == (void *)&g_val[0] && e->deleter == model_deleter && e->charge == in_charge && e->hash == in_hash && e->key_length == in_klen, "lru_shard_insert: the handle carries the caller's value, deleter, charge, hash and key length");
+  ASSUME(in_b < in_klen);
+  kp = e->key_data;
+  CHECK(kp[in_b] == key.data[in_b], "lru_shard_insert: every key byte is copied");
+  CHECK(e->in_cache == 0 && e->refs == 1, "lru_shard_insert: capacity 0 turns caching off: the entry belongs to the caller alone");
+  CHECK(SH->usage == 0 && SH->table.elems == 0 && SH->list.next == &SH->list && SH->in_use.next == &SH->in_use, "lru_shard_insert: capacity 0: the cache stays empty");
+  /* the caller's release destroys it */
+  lru_shard_release(SH, e);
+  CHECK(X.frees == 1 && X.freed[0] == (void *)e && X.dels == 1 && X.del_value[0] == (void *)&g_val[0] && X.del_klen[0] == in_klen, "lru_shard_release: the uncached entry is destroyed by its only release");
   CANARY();
 }
